@@ -1,0 +1,109 @@
+//go:build verif
+
+// Contracts for package hub (comment-only; see /verif/DESIGN.md).
+// This file contains no declarations: with and without the `verif` tag the compiled code is identical.
+package hub
+
+// The hub's trust store IS the abstract trust relation the SHIP layer is gated on (C01-G5):
+//@ abstraction $Trusted[s] of (h *Hub) := s in h.remoteServices && h.remoteServices[s].trusted
+
+//@ immutable Hub.connections, Hub.connectionAttemptCounter, Hub.connectionAttemptRunning, Hub.remoteServices, Hub.localService, Hub.hubReader, Hub.mdns, Hub.port
+
+// Representation invariant of the hub registries
+//@ macro HUBINV(h) := (h.remoteServices != nil && h.connections != nil && h.connectionAttemptCounter != nil && h.connectionAttemptRunning != nil && h.localService != nil && h.hubReader != nil && h.mdns != nil
+//@+   && (forall k: string :: k in h.remoteServices ==> h.remoteServices[k] != nil && h.remoteServices[k].ski == k && norm(k) == k && h.remoteServices[k].connectionStateDetail != nil)
+//@+   && (forall k: string :: k in h.connections ==> h.connections[k] != nil && h.connections[k].$ski == k))
+//@ objinv (h *Hub) H1-registries: @HUBINV(h)
+
+// ---- leaf accessors (lock; read or write one registry; unlock): inlined ----
+//@ func (h *Hub).connectionForSKI(ski) inline
+//@ func (h *Hub).isSkiConnected(ski) inline
+//@ func (h *Hub).registerConnection(connection) inline
+//@ func (h *Hub).removeConnectionAttemptCounter(ski) inline
+//@ func (h *Hub).getCurrentConnectionAttemptCounter(ski) inline
+//@ func (h *Hub).setConnectionAttemptRunning(ski, active) inline
+//@ func (h *Hub).isConnectionAttemptRunning(ski) inline
+//@ func (h *Hub).checkHasStarted() inline
+
+//@ func (h *Hub).numberPairedServices()
+//@   requires @HUBINV(h)
+//@ func (h *Hub).checkAutoReannounce()
+//@   requires @HUBINV(h)
+
+// mapping of handshake states to the public connection state (api/connectionstate.go)
+//@ pred mapState(s int) int := ite(s == 0, 1, ite(1 <= s && s <= 5, 2, ite(s == 11, 3, ite(s == 13, 5, ite(s == 14 || s == 15, 0, ite(s == 16 || s == 17, 8, ite(26 <= s && s <= 35, 6, ite(s == 38, 7, ite(s == 39, 9, 4)))))))))
+//@ func (h *Hub).mapShipMessageExchangeState(state, ski) pure [C15]
+//@   ensures result == mapState(state)
+
+// ---- service registry ----
+//@ macro K() := norm(ski)
+//@ macro RSFRAME(h) := (forall j: string :: j != norm(ski) ==> (j in h.remoteServices) == (j in old(h.remoteServices)) && h.remoteServices[j] == old(h.remoteServices[j]))
+//@ func (h *Hub).ServiceForSKI(ski) entry [C15,C10,C01,C09]
+//@   requires @HUBINV(h)
+//@   ensures [C15,C09] S1-lookup: result != nil && @K() in h.remoteServices && result == h.remoteServices[@K()]
+//@   ensures [C15,C09] S2-existing: @K() in old(h.remoteServices) ==> result == old(h.remoteServices[@K()])
+//@   ensures [C15] S3-fresh: !(@K() in old(h.remoteServices)) ==> !result.trusted && result.shipID == "" && !result.autoAccept && result.connectionStateDetail.state == api.ConnectionStateNone
+//@   ensures [C15] S4-others: @RSFRAME(h)
+//@   ensures @HUBINV(h)
+//@   modifies h.remoteServices[@K()]
+
+//@ func (h *Hub).IsRemoteServiceForSKIPaired(ski) entry [C01,C15]
+//@   implements api.ShipConnectionInfoProviderInterface.IsRemoteServiceForSKIPaired
+//@   requires @HUBINV(h)
+//@   ensures [C01] G5-paired: result == ($Trusted[@K()])
+//@   ensures @RSFRAME(h) && @HUBINV(h)
+//@   ensures forall j: string :: $Trusted[j] == old($Trusted[j])
+//@   modifies h.remoteServices[@K()]
+
+//@ func (h *Hub).HandleShipHandshakeStateUpdate(ski, state) entry [C01]
+//@   implements api.ShipConnectionInfoProviderInterface.HandleShipHandshakeStateUpdate
+//@   requires @HUBINV(h)
+//@   ensures [C01] G5-trust: forall j: string :: $Trusted[j] == (old($Trusted[j]) || (j == @K() && state.State == model.SmeHelloStateOk))
+//@   ensures @RSFRAME(h) && @HUBINV(h)
+//@   modifies *
+
+// ---- pairing operations (C15: the whole effect is a function of norm(ski) and the pre-state) ----
+//@ func (h *Hub).RegisterRemoteSKI(ski) entry [C15,C01,C10]
+//@   ensures [C15] R1-trusted: @K() in h.remoteServices && h.remoteServices[@K()].trusted
+//@   ensures [C15] R2-others: @RSFRAME(h) && (forall j: string :: j != @K() ==> $Trusted[j] == old($Trusted[j]))
+//@   ensures [C15] R3-approve: old(h.hasStarted) && @K() in old(h.connections) ==> old(h.connections[@K()]).$approveCalls == old(h.connections[@K()].$approveCalls) + 1
+//@   ensures [C15] R4-queued: old(h.hasStarted) && !(@K() in old(h.connections)) ==> h.remoteServices[@K()].connectionStateDetail.state == api.ConnectionStateQueued
+//@   atcall ServicePairingDetailUpdate [C15] R5-callback: $0 == @K()
+//@   modifies *
+
+//@ func (h *Hub).UnregisterRemoteSKI(ski) entry [C15,C10]
+//@   ensures [C10] D2-untrusted: @K() in h.remoteServices && !h.remoteServices[@K()].trusted && h.remoteServices[@K()].connectionStateDetail.state == api.ConnectionStateNone
+//@   ensures [C10] D2-counter: !(@K() in h.connectionAttemptCounter)
+//@   ensures [C15] U1-closed: @K() in old(h.connections) ==> old(h.connections[@K()]).$closeCalls == old(h.connections[@K()].$closeCalls) + 1 && old(h.connections[@K()]).$lastSafe && old(h.connections[@K()]).$lastCode == 4500
+//@   ensures [C15] U2-others: @RSFRAME(h) && (forall j: string :: j != @K() ==> $Trusted[j] == old($Trusted[j]))
+//@   atcall ServicePairingDetailUpdate [C15] U3-callback: $0 == @K()
+//@   modifies *
+
+//@ func (h *Hub).DisconnectSKI(ski, reason) entry [C15]
+//@   ensures [C15] X1-closed: @K() in old(h.connections) ==> old(h.connections[@K()]).$closeCalls == old(h.connections[@K()].$closeCalls) + 1 && old(h.connections[@K()]).$lastSafe && old(h.connections[@K()]).$lastCode == 0 && old(h.connections[@K()]).$lastReason == reason
+//@   modifies h.connections[@K()].$closeCalls, h.connections[@K()].$lastSafe, h.connections[@K()].$lastCode, h.connections[@K()].$lastReason
+
+//@ func (h *Hub).CancelPairingWithSKI(ski) entry [C15,C10]
+//@   ensures [C10] D3-aborted: @K() in old(h.connections) ==> old(h.connections[@K()]).$abortCalls == old(h.connections[@K()].$abortCalls) + 1
+//@   ensures [C10] D3-untrusted: @K() in h.remoteServices && !h.remoteServices[@K()].trusted && h.remoteServices[@K()].connectionStateDetail.state == api.ConnectionStateNone
+//@   ensures [C10] D3-counter: !(@K() in h.connectionAttemptCounter)
+//@   ensures [C15] C2-others: @RSFRAME(h) && (forall j: string :: j != @K() ==> $Trusted[j] == old($Trusted[j]))
+//@   atcall ServicePairingDetailUpdate [C15] C3-callback: $0 == @K()
+//@   modifies *
+
+//@ func (h *Hub).PairingDetailForSki(ski) entry [C15]
+//@   ensures [C15] P1-connected: @K() in h.connections ==> result != nil && result.state == mapState(h.connections[@K()].$hsState)
+//@   ensures [C15] P2-stored: !(@K() in h.connections) ==> result == h.remoteServices[@K()].connectionStateDetail
+//@   ensures @RSFRAME(h)
+//@   modifies h.remoteServices[@K()]
+
+// ---- connection end (C11) ----
+//@ macro CK() := connection.$ski
+//@ func (h *Hub).HandleConnectionClosed(connection, handshakeCompleted) entry [C11]
+//@   requires connection != nil
+//@   ensures [C11] F2-forget: old(@CK() in h.connections) && old(h.connections[@CK()]).$dataHandler == connection.$dataHandler ==> !(@CK() in h.connections)
+//@   ensures [C11] F2-keep: !(old(@CK() in h.connections) && old(h.connections[@CK()]).$dataHandler == connection.$dataHandler) ==> (@CK() in h.connections) == old(@CK() in h.connections) && h.connections[@CK()] == old(h.connections[@CK()])
+//@   ensures [C11] F2-others: forall j: string :: j != @CK() ==> (j in h.connections) == (j in old(h.connections)) && h.connections[j] == old(h.connections[j])
+//@   ensures [C11] F2-counter: handshakeCompleted && old(@CK() in h.connections) ==> !(@CK() in h.connectionAttemptCounter)
+//@   atcall RemoteSKIDisconnected [C11] F2-notify: $0 == @CK()
+//@   modifies *
